@@ -108,6 +108,34 @@ def check(ctx):
             m[-1] = 0
             c = cases_for(rng, m, fn)
             if c: lines.append("Str %s %s %d %d %d %d" % (fn, fmt(m), c[0], c[1], c[2], rng.randrange(8)))
+    # n-bounded functions on buffers of exactly n unterminated bytes that end with the arena (= the heap block): the definition
+    # allows no read of s[n]
+    per = 1500 if ctx.thorough else 400
+    for fn in ("strnlen", "strndup", "strncmp", "strncasecmp", "strncpy", "strncat", "memchr", "memrchr", "memcmp"):
+        for _ in range(per):
+            N = rng.choice([1, 2, 3, 4, 7, 8, 9, 16, 17, 33, 48])
+            tail = rng.randrange(1, N + 1)                     # the last `tail` bytes hold no terminator
+            m = [0 if (i < N - tail and rng.random() < 0.2) else rng.choice([rng.randrange(1, 256), 97, 65, 255]) for i in range(N)]
+            a = rng.randrange(N - tail, N); n = N - a           # exact fit; sometimes shorter
+            if rng.random() < 0.25: n = rng.randrange(0, n + 1)
+            if fn in ("strnlen", "strndup"):
+                lines.append("Str %s %s %d 0 %d %d" % (fn, fmt(m), a, n, rng.randrange(8)))
+            elif fn in ("memchr", "memrchr"):
+                lines.append("Str %s %s %d %d %d %d" % (fn, fmt(m), a, rng.choice([0, m[a], 1, 255]), n, rng.randrange(8)))
+            elif fn in ("strncmp", "strncasecmp", "memcmp"):
+                # the other operand: an equal copy placed earlier (so the comparison runs the full n bytes), or anything
+                m2 = m[a:a + n] + ([0] if fn != "memcmp" and rng.random() < 0.5 else [rng.randrange(1, 256)]) + m
+                if rng.random() < 0.3 and n: m2[rng.randrange(n)] ^= 0x20
+                a2 = a + n + 1
+                first = rng.random() < 0.5
+                lines.append("Str %s %s %d %d %d %d" % (fn, fmt(m2), a2 if first else 0, 0 if first else a2, n, rng.randrange(8)))
+            elif fn == "strncpy":
+                m2 = [rng.randrange(1, 256) for _ in range(n + 2)] + m     # destination of n bytes in front, source at the end
+                lines.append("Str strncpy %s 0 %d %d %d" % (fmt(m2), n + 2 + a, n, rng.randrange(8)))
+            elif fn == "strncat":
+                k = rng.randrange(0, 4)
+                m2 = [rng.randrange(1, 256) for _ in range(k)] + [0] + [rng.randrange(1, 256) for _ in range(n + 1)] + m   # dest string of length k with room for n + NUL
+                lines.append("Str strncat %s 0 %d %d %d" % (fmt(m2), k + 1 + n + 1 + a, n, rng.randrange(8)))
     # long aligned / misaligned block copies and moves with every relative alignment
     for fn in ("memcpy", "memmove", "memset", "memcmp"):
         for da in range(8):
@@ -129,7 +157,7 @@ def check(ctx):
     for b in bad: b["driver"] = "drv_cstring"
     ctx.report(bad)
     ctx.assumptions += [
-        "arguments satisfy the functions' preconditions (strings terminated inside the arena, destinations large enough, no overlap except for memmove); the generator chooses such arguments, TLC judges the result",
+        "arguments satisfy the functions' preconditions (strings terminated inside the arena - except the n-bounded sources of strnlen/strndup/strncmp/strncasecmp/strncpy/strncat, which are also given exactly n unterminated bytes ending with the heap block -, destinations large enough, no overlap except for memmove); the generator chooses such arguments, TLC judges the result",
         "reads or writes outside the arena are observed by ASan (exactly sized heap block; left padding 0..7 bytes varies the alignment)",
         "strtok/strtok_r are called until they return NULL; the token offsets and the final arena are judged",
     ]
